@@ -23,7 +23,8 @@ impl<K, V> HashMap<K, V> {
         ensures
             match r {
                 Some(v) => old(self)@.contains_key(*k) && *v == old(self)@[*k]
-                    && final(self)@ == old(self)@.insert(*k, *final(v)),
+                    && final(self)@ == old(self)@.insert(*k, *final(v))
+                    && (*final(v) == *v ==> *final(self) == *old(self)),
                 None => !old(self)@.contains_key(*k) && *final(self) == *old(self),
             },
     { unimplemented!() }
@@ -54,4 +55,15 @@ impl<K, V> HashMap<K, V> {
 pub open spec fn map_frame_except<K, V>(a: Map<K, V>, b: Map<K, V>, k0: K) -> bool {
     &&& forall|k: K| a.contains_key(k) <==> #[trigger] b.contains_key(k)
     &&& forall|k: K| k != k0 && #[trigger] a.contains_key(k) ==> b[k] == a[k]
+}
+
+impl<K, V> HashMap<K, V> {
+    // `m.iter()` collected: one (key, value) pair of shared references per entry, in key_order
+    #[verifier::external_body]
+    pub fn iter_vec(&self) -> (r: Vec<(&K, &V)>)
+        ensures
+            keys_exactly(self@, self.key_order()),
+            r@.len() == self.key_order().len(),
+            forall|i: int| 0 <= i < r@.len() ==> *(#[trigger] r@[i]).0 == self.key_order()[i] && *r@[i].1 == self@[self.key_order()[i]],
+    { unimplemented!() }
 }
